@@ -286,3 +286,98 @@ def finish(ctx, level="model_checking", rule="", assumptions=(), trusted=(), exh
     if rc == 0:
         shutil.rmtree(ctx.work, ignore_errors=True)
     return rc
+
+
+def standard_pipeline(ctx, *, sub, mc=(), gen=(), trace, random_n=0, random_extra=(), jobs=12, fresh=False,
+                      timeout_ms=10000, nontrivial=None, dedupe_key=None, post_gen=None, trace_env=None,
+                      trace_heap="4g", trace_timeout=1800, chunk=60000):
+    """The pipeline shared by most properties (DESIGN §2):
+      mc:    [(module, cfg, kwargs)]  exhaustive model checking of the design (layers a+b); must hold
+      gen:   [(module, cfg, kwargs)]  TLC prints scenarios (one JSON record each, PrintT(ToJson(..)))
+      sub:   harness subcommand that executes scenarios on the real code
+      trace: (module, cfg)            Trace_* spec judging every {"id","scn","obs"} line; it must print one
+                                      record {"t":"VERDICT","id":n,"ok":bool,"sig":{..}} per line
+      random_n: additional scenarios from the harness's seeded random generator (`vh gen <sub>`), same vocabulary
+    Violations (ok = false) are registered with their signature; the caller then calls finish()."""
+    ctx.build_harness()
+    for module, cfg, kw in mc:
+        ctx.tlc(module, cfg, **kw)
+    scns = []
+    for module, cfg, kw in gen:
+        g = ctx.tlc(module, cfg, **kw)
+        if not g.lines:
+            raise ToolError("%s/%s generated no scenario" % (module, cfg))
+        scns.extend(g.lines)
+    if dedupe_key:
+        seen, out = set(), []
+        for s in scns:
+            k = dedupe_key(s)
+            if k not in seen:
+                seen.add(k); out.append(s)
+        scns = out
+    if post_gen:
+        scns = post_gen(scns)
+    n_tlc = len(scns)
+    if random_n:
+        rp = ctx.path("random.ndjson")
+        ctx.vh_gen(sub, rp, random_n, random_extra)
+        for l in open(rp):
+            d = json.loads(l); d["random"] = 1
+            scns.append(d)
+    for n, d in enumerate(scns):
+        d["id"] = n
+    inp = ctx.write_ndjson("scenarios.ndjson", scns)
+    obs = ctx.vh(sub, inp, ctx.path("observations.ndjson"), jobs=jobs, fresh=fresh, timeout_ms=timeout_ms)
+    ctx.evaluations += len(obs)
+    ctx.extra["scenarios_from_tlc"] = n_tlc
+    ctx.extra["scenarios_random"] = len(scns) - n_tlc
+    if nontrivial:
+        for o in obs:
+            k = nontrivial(o)
+            if k:
+                ctx.nontrivial.add(k if not isinstance(k, bool) else o["id"])
+    for o in obs[:: max(1, len(obs) // 5)][:5]:
+        ctx.sample(o)
+    # trace validation in chunks (bounded memory, one JVM start per chunk)
+    verdicts = {}
+    module, cfg = trace
+    for c in range(0, len(obs), chunk):
+        part = obs[c:c + chunk]
+        tp = ctx.write_ndjson("trace-%d.ndjson" % (c // chunk), part)
+        t = ctx.validate(module, cfg, tp, len(part), env=trace_env, name="trace-%s-%d" % (cfg.replace(".cfg", ""), c // chunk),
+                         heap=trace_heap, timeout=trace_timeout)
+        for r in t.lines:
+            if r.get("t") == "VERDICT":
+                verdicts.setdefault(r["id"], []).append(r)
+    ctx.traces = len(obs)
+    nbad = 0
+    for o in obs:
+        vs = verdicts.get(o["id"])
+        if not vs:
+            raise ToolError("trace spec %s produced no verdict for line id=%s: %s" % (module, o["id"], json.dumps(o)[:400]))
+        if any(v["ok"] for v in vs):
+            continue
+        nbad += 1
+        sig = vs[0]["sig"]
+        if not isinstance(sig, dict):
+            sig = {"class": sig}
+        ctx.violation(sig, json.dumps({"scn": o["scn"], "obs": o["obs"]})[:400], o)
+    log("[judge] %d observation(s) judged by %s: %d outside the property" % (len(obs), module, nbad))
+    return obs, verdicts
+
+
+def standard_replay(ctx, path, *, sub, trace, fresh=False):
+    doc = json.load(open(path))
+    ctx.build_harness()
+    scn = doc["scenario"]["scn"]
+    inp = ctx.write_ndjson("scenarios.ndjson", [scn])
+    obs = ctx.vh(sub, inp, ctx.path("observations.ndjson"), jobs=1, fresh=fresh)
+    print(json.dumps(obs[0], indent=1))
+    tp = ctx.write_ndjson("trace.ndjson", obs)
+    t = ctx.validate(trace[0], trace[1], tp, 1)
+    vs = [r for r in t.lines if r.get("t") == "VERDICT"]
+    print(vs)
+    if not any(v["ok"] for v in vs):
+        print("VIOLATION property=%s replay=%s" % (ctx.prop, path))
+        return 1
+    return 0
